@@ -95,11 +95,13 @@ class Recorder:
 
     def process_model(self, dt, state, covariance, control=None):
         self.log.append(("P", dt))
-        return state, covariance
+        from formak.python import StateAndCovariance
+        return StateAndCovariance(state, covariance)
 
     def sensor_model(self, state, covariance, *, sensor_key, sensor_reading):
         self.log.append(("S", sensor_key))
-        return state, covariance
+        from formak.python import StateAndCovariance
+        return StateAndCovariance(state, covariance)
 
     def make_reading(self, key, *, data=None, **kwargs):
         return ("R", key)
